@@ -355,7 +355,8 @@ impl PartialOrd for Object {
         debug_assert_eq!(self.tag(), other.tag());
 
         match self.tag() {
-            Type::Null | Type::Bool | Type::Int => self.0.partial_cmp(&other.0),
+            // Compare as signed words: the tag bits are equal, so this is the order of the values
+            Type::Null | Type::Bool | Type::Int => (self.0 as isize).partial_cmp(&(other.0 as isize)),
             Type::Float => unsafe { self.as_f64_unchecked().partial_cmp(&other.as_f64()) },
             Type::String => unsafe { self.as_str_unchecked().partial_cmp(other.as_str()) },
             Type::Array | Type::Function => {
